@@ -104,3 +104,26 @@ Definition gs_get {A} (d : A) (o : option A) : A := match o with Some v => v | N
 (* a method call through a pointer that may be nil (None): the guard gs_is_some comes first *)
 Definition gs_find {H} (f : H -> gstr -> option H * bool) (p : option H) (k : gstr) : option H * bool :=
   match p with Some h => f h k | None => (None, false) end.
+
+(* self-test of this file against the Go library (harness/c17.go writes the cases on every run): operation code,
+   arguments, and what package strings returned *)
+Inductive gs_case :=
+| GsStr (op : N) (a b : hexs) (n : Z) (want : hexs)            (* string-valued *)
+| GsList (op : N) (a b : hexs) (n : Z) (want : list hexs)      (* []string-valued *)
+| GsInt (op : N) (a b : hexs) (want : Z)
+| GsBool (op : N) (a b : hexs) (want : bool).
+Definition gs_case_ok (c : gs_case) : bool :=
+  match c with
+  | GsStr op a b _ want =>
+      let (x, y) := (unhex a, unhex b) in
+      gs_eqb (match op with
+              | 0%N => gs_trim y x | 1%N => gs_trim_left y x | 2%N => gs_trim_right y x | 3%N => gs_trim_space x
+              | 4%N => gs_trim_prefix x y | _ => gs_trim_suffix x y
+              end) (unhex want)
+  | GsList op a b n want =>
+      list_eqb gs_eqb (match op with 0%N => gs_splitn (unhex a) (unhex b) n | _ => gs_split (unhex a) (unhex b) end) (map unhex want)
+  | GsInt _ a b want => Z.eqb (gs_index_byte (unhex a) (hd 0%N (unhex b))) want
+  | GsBool op a b want =>
+      Bool.eqb (match op with 0%N => gs_contains (unhex a) (unhex b) | 1%N => gs_has_prefix (unhex a) (unhex b) | _ => gs_has_suffix (unhex a) (unhex b) end) want
+  end.
+Definition gs_mismatch (off : N) (cs : list gs_case) : list N := failing_from gs_case_ok off cs.
